@@ -1,0 +1,47 @@
+//go:build verif
+
+// Contracts for govc (contract-based deductive verification); comments only.
+package utils
+
+//@ import ri "github.com/NVIDIA/KAI-scheduler/pkg/scheduler/api/resource_info"
+//@ import ci "github.com/NVIDIA/KAI-scheduler/pkg/scheduler/api/common_info"
+
+// ---- the parent chain of a queue (shared by capacity_policy and proportion) ----------------
+// anc(s, n)  : id of the n-th ancestor of queue id s (anc(s,0) = s)
+// depth(s)   : number of queues on the parent chain of s that are present in the queue map
+// lvl(q)     : position of the attributes object q on that chain (inverse of anc on the chain)
+// chainOK(queues, s) says: these three uninterpreted symbols describe the parent chain of s in the
+// map `queues` of the current heap, that chain is FINITE (leaves the map after depth(s) steps, i.e.
+// the queue graph has no cycle reachable from s) and has no nil entry. For every heap in which the
+// loop `for q, ok := queues[s]; ok; q, ok = queues[q.ParentQueue]` terminates without a nil
+// dereference such anc/depth/lvl exist, so contracts that require chainOK speak about exactly the
+// queues that loop visits. rank(k) = depth(s) - lvl(queues[k]) is the ranking that decreases.
+// NOTE (C10): nothing in the current code establishes chainOK: UpdateQueueHierarchy prunes
+// orphans only, a queue whose parentQueue is itself (or any parent cycle) makes every such loop spin.
+//@ declare anc(s ci.QueueID, n int) ci.QueueID
+//@ declare depth(s ci.QueueID) int
+//@ declare lvl(q *rs.QueueAttributes) int
+//@ define chainOK(queues map[ci.QueueID]*rs.QueueAttributes, s ci.QueueID) bool = depth(s) >= 0 && anc(s, 0) == s && !(anc(s, depth(s)) in queues) && (forall n int :: 0 <= n && n < depth(s) ==> anc(s, n) in queues && queues[anc(s, n)] != nil && lvl(queues[anc(s, n)]) == n && anc(s, n+1) == queues[anc(s, n)].ParentQueue)
+// q is the attributes object of one of the ancestors (incl. s itself) of s
+//@ define onChain(queues map[ci.QueueID]*rs.QueueAttributes, s ci.QueueID, q *rs.QueueAttributes) bool = 0 <= lvl(q) && lvl(q) < depth(s) && queues[anc(s, lvl(q))] == q
+
+//@ func QuantifyResource
+//@   props C07 C08
+//@   requires resource != nil
+//@   fresh
+//@   ensures result["CPU"] == resource.milliCpu && result["Memory"] == resource.memory && result["GPU"] == resource.gpus + ri.migGpus(resource)
+//@ end
+
+// The quantities charged to / checked against queues for a task: cpu, memory and the total GPU quota.
+//@ func QuantifyResourceRequirements
+//@   props C08 C14
+//@   requires resource != nil
+//@   fresh
+//@   ensures result["CPU"] == resource.milliCpu && result["Memory"] == resource.memory && result["GPU"] == resource.GetGpusQuota()
+//@ end
+
+//@ func ResourceRequirementsFromQuantities
+//@   props C08 C10
+//@   fresh
+//@   ensures result != nil && result.milliCpu == quantities["CPU"] && result.memory == quantities["Memory"]
+//@ end
